@@ -132,12 +132,17 @@ CONFIG["C12"] = {
                     "tau is modelled as an integer (the code applies int(tau))"],
 }
 CONFIG["C13"] = {
-    "level": "exploration", "proof": False, "rtc": True,
-    "explanation": "Bounded run-time contract, exhaustive over matrices of size <= 5, all set partitions (also redundant / overlapping / "
-                   "reordered join lists), all deletion sets, all 2-step (quick) / 3-step (thorough) histories threading the index list, "
-                   "dense and csr, sizes 9-12 for set-order effects, and the four limit combinations of cut_and_merge, against an "
-                   "independent lumping oracle.",
-    "assumptions": [],
+    "level": "other", "proof": True, "rtc": True,
+    "explanation": "Proved: sqra_normalize on csr input (off-diagonal unchanged, diagonal reset, rows sum to zero, frame); the "
+                   "intermediate assertion of delete_rate_cells that `to_keep` is the strictly ascending complement of the removed rows "
+                   "(for all n and removal lists; this is what keeps matrix and index list aligned); SQRA.cut_and_merge over the four "
+                   "limit combinations against the callee contracts (unchanged matrix without list, or list with one group per row). "
+                   "Bounded only (exhaustive over matrices of size <= 5, all partitions / deletion sets / 2-3 step histories, dense and "
+                   "csr, sizes 9-12): the lumping sums and the index-list bookkeeping of merge_matrix_cells and delete_rate_cells.",
+    "trusted_base": [SCIPY_SPARSE, "library contracts: set(range(n)), set difference, sorted(set) = ascending filter of the range by "
+                     "membership; list(set) = arbitrary order", "ASSUMED callee contracts inside cut_and_merge (bounded-checked): "
+                     "merge_matrix_cells / delete_rate_cells return a square matrix and an index list with one group per row"],
+    "assumptions": ["merge_matrix_cells (networkx components, nested comprehensions over nested lists) is outside the verifier's subset: bounded only"],
 }
 CONFIG["C17"] = {
     "level": "other", "proof": True, "rtc": True,
